@@ -11,9 +11,26 @@ def succs(fn, b, unwind=False):
     if k == "goto":
         out.append((t[1], "n"))
     elif k == "sw":
-        for v, tb in t[2]:
-            out.append((tb, ("sw", v)))
-        out.append((t[3], ("sw", None)))
+        d = t[1]
+        if d[0] in ("c", "m") and not d[1][1]:
+            # discriminant assigned a constant earlier in the same block (`_t = const false; switchInt(move _t)`)
+            for st in reversed(fn.stmts(b)):
+                if st[1] == [d[1][0], []]:
+                    if st[2][0] == "use" and st[2][1][0] == "k" and isinstance(st[2][1][2], (bool, int)):
+                        d = st[2][1]
+                    break
+        if d[0] == "k" and isinstance(d[2], (bool, int)):
+            # constant discriminant (e.g. `if false && ..`): only the matching edge is feasible
+            cv = int(d[2])
+            tgt = None
+            for v, tb in t[2]:
+                if v == cv:
+                    tgt = tb
+            out.append((tgt if tgt is not None else t[3], ("sw", cv)))
+        else:
+            for v, tb in t[2]:
+                out.append((tb, ("sw", v)))
+            out.append((t[3], ("sw", None)))
     elif k == "drop":
         out.append((t[2], "n"))
         if unwind and t[3] is not None:
